@@ -19,7 +19,7 @@ def provider(*props):
 
 
 def load():
-    for m in ('lemmas.registry', 'bounded.registry'):
+    for m in ('lemmas.registry', 'bounded.registry', 'bounded.serial'):
         try:
             importlib.import_module(m)
         except ModuleNotFoundError as e:
